@@ -462,52 +462,109 @@ def rule_containment(ctx: Ctx, repo: Repo) -> None:
 
 
 def rule_restore_flush(ctx: Ctx, repo: Repo) -> None:
+    """R-C03.3 / R-C03.7 by interpretation of the context-manager protocol.  A driver
+
+        cm = trace_calls(logger, 0, None, None)      # the context manager object is created ...
+        [sys.setprofile(P1)]                          # ... the program may install another profiler before it enters
+        with cm:
+            BODY()                                    # returns or raises
+
+    is interpreted with `sys.getprofile/setprofile` answered from a one-cell world, for body {returns, raises} x
+    logger.flush {returns, raises} x {entered at once, entered later}.  Required: the tracer is the installed profiler
+    while the body runs; afterwards the profiler that was installed when the block was ENTERED is back; flush is called
+    exactly once, after the restore; the block ends the way its body ended, whatever flush did."""
+    from mtsa.absint import K, R, S, U, raise_exc
+    from .common import RepoInterp
     tc = repo.fn(M, "trace_calls")
     ctx.functions.add(tc.fq)
-    g = cfg_of(tc)
-    lparam = tc.positional_params()[0]
-    setp = g.find_calls(lambda c: dotted(c.func) == "sys.setprofile")
-    getp = g.find_calls(lambda c: dotted(c.func) == "sys.getprofile")
-    flush = g.find_calls(lambda c: isinstance(c.func, ast.Attribute) and c.func.attr == "flush" and dotted(c.func.value) == lparam)
-    yields = [n for n in g.stmts() if any(isinstance(x, (ast.Yield, ast.YieldFrom)) for x in n.walk())]
-    ctx.floor("R-C03.3", "sys.setprofile calls in trace_calls", len(setp), 2)
-    ctx.check(len(getp) >= 1, "R-C03.3", tc.fq, "the previously installed profiler is read with sys.getprofile() (that is what gets restored)",
-              construct=f"{len(getp)} sys.getprofile() call(s) in trace_calls")
-    ctx.floor("R-C03.3", "logger.flush call in trace_calls", len(flush), 1)
-    if len(yields) != 1:
-        raise AnalysisError("trace_calls does not have exactly one yield")
-    y = yields[0]
-    install = [(n, c) for n, c in setp if c.args and all(is_call_to(r, "CallTracer") for r, _, _ in g.origins(c.args[0], n.id))]
-    restore = [(n, c) for n, c in setp if (n, c) not in install]
-    ctx.check(len(install) == 1, "R-C03.3", tc.fq, "exactly one installation of the tracer", construct=f"{len(install)} installing sys.setprofile calls")
-    for n, c in restore:
-        roots = g.origins(c.args[0], n.id) if c.args else []
-        ok = bool(roots) and all(dotted(getattr(r, "func", r)) == "sys.getprofile" for r, _, _ in roots)
-        ctx.check(ok, "R-C03.3", tc.fq, "the restored profiler is the one sys.getprofile() returned", construct=norm(c), node=c)
-        for gn, _ in getp:
-            for inn, _ in install:
-                ctx.check(g.dominates(gn.id, inn.id), "R-C03.3", tc.fq,
-                          "the previous profiler is read before the tracer is installed", construct=norm(c))
-    # on every path from the yield (normal and exceptional) to an exit: exactly one restore, exactly one
-    # flush, restore first
-    restore_ids = {n.id for n, _ in restore}
-    flush_ids = {n.id for n, _ in flush}
-    paths = g.paths(src=y.id, include_exc=True)
-    ctx.check(len(paths) >= 2, "R-C03.3", tc.fq, "the yield is guarded: both a normal and an exceptional exit path exist",
-              construct=f"{len(paths)} exit path(s) from the yield")
-    for p in paths:
-        seq = [("restore" if nid in restore_ids else "flush") for nid, _ in p if nid in restore_ids or nid in flush_ids]
-        end = "exception" if p[-1][0] == g.rexit else "normal"
-        ctx.check(seq == ["restore", "flush"], "R-C03.3", tc.fq,
-                  f"on the {end} exit path the previous profiler is restored once, then the logger is flushed once",
-                  construct=f"{end} exit: {seq}")
-    # an exception raised while installing cannot skip the restore: installation happens outside or the
-    # handlers cover it; nothing flushes before the yield
-    for n, _ in flush:
-        ctx.check(n.id not in g.reach(g.entry, avoid_nodes=[y.id]) or g.dominates(y.id, n.id), "R-C03.3", tc.fq,
-                  "nothing flushes before the traced block ran", construct=norm(n.ast))
-    ctx.check(any(norm(d) in ("contextmanager", "contextlib.contextmanager") for d in tc.node.decorator_list), "R-C03.3", tc.fq,
-              "trace_calls is a context manager", construct=str(tc.decorators()))
+    mod = repo.module(M)
+    ci = repo.cls(M, "CallTracer")
+    init = repo.method(ci, "__init__")
+    n = 0
+    for prepared in (False, True):
+        for body_raises in (False, True):
+            for flush_raises in (False, True):
+                src = "def __driver__(logger, P1, BODY):\n    cm = trace_calls(logger, 0, None, None)\n" + \
+                      ("    sys.setprofile(P1)\n" if prepared else "") + "    with cm:\n        BODY()\n"
+                node = ast.parse(src).body[0]
+                fi = FunctionInfo(mod, "<driver>", node)
+                world = {"profile": R("profiler", name=K("P0"))}
+                log: List[Tuple[Any, ...]] = []
+
+                def hook(call, fname, fval, args, kwargs, st, _w=world, _l=log, _br=body_raises, _fr=flush_raises):
+                    d = fname or ""
+                    if d == "sys.getprofile":
+                        return _w["profile"]
+                    if d == "sys.setprofile" and len(args) == 1:
+                        _w["profile"] = st.freeze(args[0])
+                        _l.append(("setprofile", _w["profile"]))
+                        return K(None)
+                    if d in ("sys.settrace", "sys.gettrace", "threading.setprofile", "threading.settrace"):
+                        _l.append((d,))
+                        return R("tracefunc") if "get" in d else K(None)
+                    if d == "BODY":
+                        _l.append(("body", _w["profile"]))
+                        if _br:
+                            raise_exc(st, "ValueError")
+                            return U("the traced block raised")
+                        return K(None)
+                    if isinstance(fval, S) and fval.name == "p:logger" and isinstance(call.func, ast.Attribute):
+                        _l.append(("logger." + call.func.attr, _w["profile"]))
+                        if call.func.attr == "flush" and _fr:
+                            raise_exc(st, "OSError")
+                            return U("flush failed")
+                        return K(None)
+                    try:
+                        callee = ri.resolve(call, fval)
+                    except Exception:
+                        callee = None
+                    if callee is not None and callee is init:
+                        return R("tracer")
+                    if d.startswith("logging.") or (isinstance(call.func, ast.Attribute) and call.func.attr in ("exception", "error", "warning", "info", "debug") and not isinstance(fval, S)):
+                        return R("opaque", what=K("logging"))
+                    if isinstance(fval, R) and fval.kind == "opaque":
+                        return K(None)
+                    return None
+
+                inline = {f.fq for f in mod.functions.values() if f.cls is None}
+                ri = RepoInterp(repo, fi, inline=inline, call_hook=hook, may_fork=(), heap=True)
+                outs = ri.run({"logger": S("p:logger"), "P1": R("profiler", name=K("P1")), "BODY": S("func:BODY")})
+                if len(outs) != 1:
+                    raise AnalysisError(f"trace_calls: {len(outs)} outcomes for one scenario of the context-manager protocol")
+                o = outs[0]
+                n += 1
+                lab = f"body {'raises' if body_raises else 'returns'}, flush {'raises' if flush_raises else 'returns'}, {'profiler P1 installed between creating and entering the context manager' if prepared else 'entered at once'}"
+                at_entry = R("profiler", name=K("P1" if prepared else "P0"))
+                bodies = [e for e in log if e[0] == "body"]
+                if not ctx.check(len(bodies) == 1, "R-C03.3", tc.fq, "the traced block runs exactly once inside the context", construct=f"{lab}: body ran {len(bodies)} time(s)"):
+                    continue
+                ctx.check(bodies[0][1] == R("tracer"), "R-C03.3", tc.fq, "while the block runs the installed profiler is the tracer (installed with sys.setprofile)",
+                          construct=f"{lab}: profiler during the block = {bodies[0][1]}; calls {[e[0] for e in log]}")
+                bad_api = [e[0] for e in log if e[0] in ("sys.settrace", "sys.gettrace", "threading.setprofile", "threading.settrace")]
+                ctx.check(not bad_api, "R-C03.3", tc.fq, "the previously installed profiler is read with sys.getprofile() (that is what gets restored)", construct=f"{lab}: {bad_api}")
+                ctx.check(world["profile"] == at_entry, "R-C03.3", tc.fq,
+                          "when the context exits the profiler that was installed when the block was entered is back in place",
+                          construct=f"{'exception' if body_raises else 'normal'} exit, {'entered later' if prepared else 'entered at once'}: profiler afterwards = {world['profile']}, at entry = {at_entry}")
+                after = log[log.index(bodies[0]) + 1:]
+                flushes = [e for e in after if e[0] == "logger.flush"]
+                early = [e for e in log[:log.index(bodies[0])] if e[0] == "logger.flush"]
+                ctx.check(len(flushes) == 1 and not early, "R-C03.3", tc.fq,
+                          f"on the {'exception' if body_raises else 'normal'} exit path the previous profiler is restored once, then the logger is flushed once",
+                          construct=f"{lab}: after the block {[e[0] for e in after]}, before it {[e[0] for e in early]}")
+                if flushes:
+                    ctx.check(flushes[0][1] == at_entry and sum(1 for e in after if e[0] == "setprofile") == 1, "R-C03.3", tc.fq,
+                              f"on the {'exception' if body_raises else 'normal'} exit path the previous profiler is restored once, then the logger is flushed once",
+                              construct=f"{lab}: profiler at flush time = {flushes[0][1]}; after the block {[e[0] for e in after]}")
+                # how the block ends is how its body ended
+                ended = "returns" if o.term is None or o.term[0] == "return" else f"raises {o.term[1]}"
+                want = "raises ValueError" if body_raises else "returns"
+                if flush_raises:
+                    ctx.check(ended == want, "R-C03.7", tc.fq,
+                              "a failure of the logger's flush is contained: the traced block still ends the way its body ended (its own exception is not replaced, a normal exit stays normal)",
+                              construct=f"logger.flush() raising on the {'exception' if body_raises else 'normal'} exit path reaches the program: the block {ended}, its body {want.replace('raises', 'raised').replace('returns', 'returned')}")
+                else:
+                    ctx.check(ended == want, "R-C03.3", tc.fq, "the traced block ends the way its body ended", construct=f"{lab}: the block {ended}")
+    ctx.floor("R-C03.3", "scenarios of the context-manager protocol", n, 8)
     # trace() returns trace_calls(...) unchanged; run_handler uses it in a with statement
     from . import glue_model as GM
     for gl in GM.trace_glue(repo):
@@ -568,6 +625,29 @@ HARMLESS_CALLS = {"sys.setprofile", "sys.getprofile", "list", "tuple", "dict", "
 HARMLESS_METHODS = {"items", "values", "keys", "clear", "append", "pop", "popitem", "get", "copy", "extend", "discard", "add", "remove"}
 
 
+LOG_METHODS = {"exception", "error", "warning", "info", "debug", "critical", "log"}
+
+
+def _is_logging_call(fi: FunctionInfo, c: ast.Call) -> bool:
+    """`logging.getLogger(...)`, or a report through a standard-library logger: `logging.getLogger(...).exception(..)` or
+    `<module-level name bound to logging.getLogger(...)>.exception(..)` where the name is not shadowed by a parameter or
+    local.  Catalogue: the logging package contains failures of its handlers (Handler.handleError), it does not raise."""
+    d = dotted(c.func) or ""
+    if d == "logging.getLogger" and fi.module.imports.get("logging", "logging") == "logging":
+        return True
+    if isinstance(c.func, ast.Attribute) and c.func.attr in LOG_METHODS:
+        recv = c.func.value
+        if isinstance(recv, ast.Call) and (dotted(recv.func) or "") == "logging.getLogger":
+            return True
+        if isinstance(recv, ast.Name):
+            const = fi.module.constants.get(recv.id)
+            shadowed = recv.id in getattr(fi, "params", []) or any(
+                isinstance(x, ast.Name) and x.id == recv.id and isinstance(x.ctx, ast.Store) for x in ast.walk(fi.node))
+            if const is not None and isinstance(const, ast.Call) and (dotted(const.func) or "") == "logging.getLogger" and not shadowed:
+                return True
+    return False
+
+
 def _guarded_ids(fn_node: ast.AST) -> Set[int]:
     """ids of the nodes under a try whose catch-all handler does not re-raise"""
     out: Set[int] = set()
@@ -595,6 +675,8 @@ def _uncontained_calls(repo: Repo, fi: FunctionInfo, nodes: List[ast.AST], depth
             d = dotted(c.func) or ""
             if d in HARMLESS_CALLS:
                 continue
+            if _is_logging_call(fi, c):
+                continue
             callee = _resolve(repo, fi, c)
             if callee is not None and callee.fq.startswith("monkeytype.") and depth < 3:
                 if callee.fq in seen:
@@ -610,12 +692,18 @@ def _uncontained_calls(repo: Repo, fi: FunctionInfo, nodes: List[ast.AST], depth
 
 
 def rule_exit_contained(ctx: Ctx, repo: Repo) -> None:
-    tc = repo.fn(M, "trace_calls")
+    tc0 = repo.fn(M, "trace_calls")
+    # the generator whose yield is the traced block: trace_calls itself, or a @contextmanager helper of tracing.py it returns
+    cands = [tc0] + [c_ for c_ in (repo.resolve_callee(tc0, x) for x in calls_in(tc0.node)) if c_ is not None and c_.module.name == M and c_.cls is None]
+    holders = [f for f in cands if any(isinstance(x, (ast.Yield, ast.YieldFrom)) for x in walk_no_nested(f.node))]
+    if len(holders) != 1:
+        raise AnalysisError(f"trace_calls: {len(holders)} generator(s) hold the traced block's yield")
+    tc = holders[0]
     g = cfg_of(tc)
-    lparam = tc.positional_params()[0]
+    flush_receivers = set()
     yields = [n for n in g.stmts() if any(isinstance(x, (ast.Yield, ast.YieldFrom)) for x in n.walk())]
     if len(yields) != 1:
-        raise AnalysisError("trace_calls does not have exactly one yield")
+        raise AnalysisError(f"{tc.qualname} does not have exactly one yield")
     y = yields[0]
     after = [g.node(nid) for nid in sorted(g.reach(y.id)) if nid not in (y.id, g.exit, g.rexit)]
     n = 0
@@ -628,8 +716,8 @@ def rule_exit_contained(ctx: Ctx, repo: Repo) -> None:
         for e in exprs:
             for c in [x for x in ast.walk(e) if isinstance(x, ast.Call)]:
                 d = dotted(c.func) or ""
-                if d == "sys.setprofile" or (isinstance(c.func, ast.Attribute) and c.func.attr == "flush" and dotted(c.func.value) == lparam):
-                    continue  # decided by R-C03.3
+                if d == "sys.setprofile" or (isinstance(c.func, ast.Attribute) and c.func.attr == "flush" and dotted(c.func.value) in tc.positional_params()):
+                    continue  # decided by R-C03.3 / R-C03.7 (interpretation of the context-manager protocol)
                 n += 1
                 bad = _uncontained_calls(repo, tc, [c])
                 if not bad:
@@ -725,6 +813,43 @@ def rule_serializer_contained(ctx: Ctx, repo: Repo) -> None:
               "the stock store serializes a batch through serialize_traces", construct="serialize_traces call in SQLiteStore.add")
 
 
+GLOBAL_RNG_FUNCS = {"random", "randrange", "randint", "choice", "choices", "shuffle", "sample", "uniform", "getrandbits", "seed", "setstate",
+                    "gauss", "normalvariate", "triangular", "betavariate", "expovariate", "randbytes"}
+
+
+def rule_program_visible_state(ctx: Ctx, repo: Repo) -> None:
+    """R-C03.6: nothing the profile function can reach consumes or sets process-wide state the traced program observes.
+    The module-level functions of `random` all work on ONE hidden generator shared with the program: a draw by the tracer
+    shifts every later random number the program sees (and a program that re-seeds decides the tracer's draws)."""
+    start = repo.method(repo.cls(M, "CallTracer"), "__call__")
+    todo, seen = [start], {}
+    while todo:
+        fi = todo.pop()
+        if fi.fq in seen:
+            continue
+        seen[fi.fq] = fi
+        for c in calls_in(fi.node):
+            callee = repo.resolve_callee(fi, c)
+            if callee is not None and callee.fq.startswith("monkeytype.") and callee.fq not in seen:
+                todo.append(callee)
+    n = 0
+    for fq, fi in sorted(seen.items()):
+        for c in calls_in(fi.node):
+            d = dotted(c.func) or ""
+            head, _, tail = d.rpartition(".")
+            target = fi.module.imports.get(d.split(".")[0], "") if d else ""
+            is_global = (head == "random" and fi.module.imports.get("random", "random") == "random" and tail in GLOBAL_RNG_FUNCS) or \
+                (not head and target.startswith("random.") and target.split(".")[-1] in GLOBAL_RNG_FUNCS)
+            n += 1
+            if is_global:
+                ctx.violate("R-C03.6", fq, f"{'random.' + tail if head else target}(...) on the process-wide generator",
+                            "the tracer consumes (or sets) the module-level random generator the traced program shares: with sampling on, the program's own random numbers differ from an untraced run",
+                            node=c)
+            else:
+                ctx.ok("R-C03.6", fq, "the call does not touch the process-wide random generator")
+    ctx.floor("R-C03.6", "calls reachable from the profile function examined for process-wide state", n, 30)
+
+
 def run(ctx: Ctx, repo: Repo, tier: str) -> None:
     ctx.trust(
         "CPython data model: isinstance() falls back to obj.__class__; getattr/hasattr/attribute access run __getattribute__/"
@@ -745,3 +870,4 @@ def run(ctx: Ctx, repo: Repo, tier: str) -> None:
     rule_restore_flush(ctx, repo)
     rule_exit_contained(ctx, repo)
     rule_serializer_contained(ctx, repo)
+    rule_program_visible_state(ctx, repo)
